@@ -13,9 +13,10 @@ EXTENDS Integers, Sequences, FiniteSets, TLC
 (*   nb     : number of length octets announced by a long form (1..9)      *)
 (*   have   : how many of them are present                                 *)
 (*   n      : content length class                                         *)
-LenClasses == {0, 1, 127, 128, 255, 256, 65535, 65536}
+\* (the last three are declared lengths near the largest a signed 64-bit integer holds; the content behind them is short)
+LenClasses == {0, 1, 127, 128, 255, 256, 65535, 65536, -1, -2, -3}     \* -1: 2^63-1, -2: 2^63-10, -3: 2^62 (eight length octets)
 CS(tag, len, nb, have, n) == [tag |-> tag, len |-> len, nb |-> nb, have |-> have, n |-> n]
-MinOctets(n) == IF n < 256 THEN 1 ELSE IF n < 65536 THEN 2 ELSE 3
+MinOctets(n) == IF n < 0 THEN 8 ELSE IF n < 256 THEN 1 ELSE IF n < 65536 THEN 2 ELSE 3
 CSInputs ==
      {CS("none", "none", 0, 0, 0)}
   \cup {CS(t, "none", 0, 0, 0) : t \in {"oct", "gen", "other"}}
